@@ -500,6 +500,9 @@ def write_replay(ctx, name, payload):
     d = os.path.join(VERIF, "replays")
     os.makedirs(d, exist_ok=True)
     p = os.path.join(d, "%s-%s.json" % (ctx.prop_id, name))
+    if isinstance(payload, dict):
+        # what a replay needs to find the same case again: generation is a function of these
+        payload = dict(payload, _run={"seed": ctx.base_seed, "tier": ctx.tier, "scale": ctx.scale})
     with open(p, "w") as f:
         json.dump(payload, f, indent=1, sort_keys=True)
     return p
